@@ -287,9 +287,16 @@ func (noConn) CloseConnection(models.Node)  {}
 // discovery events of a cluster with the given live brokers and the layout's storage nodes.
 func productionState(t *testing.T, e *env, self string, brokers []string, l *layoutSpec) broker.StateManager {
 	t.Helper()
+	sm, stop := startProductionState(t, e, self, brokers, l)
+	t.Cleanup(stop)
+	return sm
+}
+
+// startProductionState: see productionState; the caller stops the manager.
+func startProductionState(t fataler, e *env, self string, brokers []string, l *layoutSpec) (broker.StateManager, func()) {
 	ctx, cancel := context.WithCancel(context.Background())
 	sm := broker.NewStateManager(ctx, e.xc.brokers[self].node, noConn{}, nil)
-	t.Cleanup(func() { sm.Close(); cancel() })
+	stop := func() { sm.Close(); cancel() }
 	sm.EmitEvent(&discovery.Event{Type: discovery.DatabaseConfigChanged, Key: "/database/config/" + l.db,
 		Value: encoding.JSONMarshal(&models.Database{Name: l.db, Option: e.opt, NumOfShard: l.Shards, ReplicaFactor: 1})})
 	for _, b := range brokers {
@@ -311,9 +318,10 @@ func productionState(t *testing.T, e *env, self string, brokers []string, l *lay
 	for {
 		rep, err := sm.GetQueryableReplicas(l.db)
 		if err == nil && len(rep) == len(l.Nodes) && len(sm.GetLiveNodes()) == len(brokers) {
-			return sm
+			return sm, stop
 		}
 		if time.Now().After(deadline) {
+			stop()
 			t.Fatalf("harness: the state manager did not take the events: %v %v %v", rep, err, sm.GetLiveNodes())
 		}
 		time.Sleep(2 * time.Millisecond)
